@@ -30,7 +30,14 @@ def w1(ctx, rid):
     for (g, bb, o, how) in core.field_sources(prog, 'record::record::Header', 'blob_offset'):
         if how != 'construct':
             setters.add(prog.fns[g.id].root)
-    sers = [c for c in f.calls if c.path == 'bincode::serialize_into' and c.f.get('args') and 'record::record::Header' in c.f['args'][1]]
+    def is_hdr_ser(c):
+        return c.path == 'bincode::serialize_into' and c.f.get('args') and 'record::record::Header' in c.f['args'][1]
+    sers = [c for c in f.calls if is_hdr_ser(c)]
+    via_helper = False
+    if not sers:
+        # the three writes (header, meta, data) may have been extracted into a helper that is handed the stamped record
+        sers = [c for c in f.calls if c.bb in f.reachable() and any(t in prog.fns and prog.fns[t].file == f.file and t != f.id and any(is_hdr_ser(x) for x in prog.fns[t].calls) for t in prog.resolve(c))]
+        via_helper = bool(sers)
     if not sers:
         raise core.AnchorLost('header serialisation in write_record')
     stamps = []
@@ -55,9 +62,10 @@ def w1(ctx, rid):
         carry = core.flows_forward(f, c.dest[0], transparent=core.fwd_transparent)
         # stored back into record.header, then &record.header serialised: accept flow through the field
         for s in sers:
-            ogs = core.origins(f, s.args[1], stop_fields=False)
-            if any(o.kind == 'call' and o.data.bb == c.bb for o in ogs):
-                good = True
+            for a in (s.args if via_helper else s.args[1:2]):
+                ogs = core.origins(f, a, stop_fields=False)
+                if any(o.kind == 'call' and o.data.bb == c.bb for o in ogs):
+                    good = True
     # the setter recomputes the checksum
     crc_ok = False
     L, E = prog.may_reach()
